@@ -145,12 +145,14 @@ def split_boxes(boxes, depth):
     return out
 
 
-def analyze_entry(built, name, boxes=None, rnd=None, refine_depth=2, want_paths=False):
+def analyze_entry(built, name, boxes=None, rnd=None, refine_depth=2, want_paths=False, opts=None):
     ent = built.entries[name]
     mod = built.mod
     rnd = rnd or random.Random(0)
     boxes = boxes or default_boxes(ent)
     an = Analyzer(mod, mod.functions[name])
+    for k_, v_ in (opts or {}).items():
+        setattr(an, k_, v_)
     res = an.run(P.init_state(an.fn, boxes))
     out_alarms = []
     stats = dict(res.stats)
